@@ -627,7 +627,8 @@ func appendNew(xs []string, x string) []string {
 	return append(xs, x)
 }
 
-var c01Keys = []string{"source", "gene", "CDS", "misc_feature", "exon", "a", "x23456789012345", "rep_origin", "_k"}
+// keys of 16 and more bytes widen the key column of the whole table (repo e050333)
+var c01Keys = []string{"source", "gene", "CDS", "misc_feature", "exon", "a", "x23456789012345", "rep_origin", "_k", "x234567890123456", "averyveryverylongkeyname"}
 
 func (g qualGen) table(r *rng, L int, maxF int, reg *registry) gts.FeatureSlice {
 	n := r.intn(maxF + 1)
@@ -1033,7 +1034,7 @@ func inDomain(gb seqio.GenBank) bool {
 		}
 	}
 	for _, ft := range gb.Table {
-		if len(ft.Key) == 0 || len(ft.Key) > 15 || !isSnakeWord(ft.Key) || ft.Loc == nil {
+		if len(ft.Key) == 0 || !isSnakeWord(ft.Key) || ft.Loc == nil {
 			return false
 		}
 		names := map[string]bool{}
